@@ -1,2 +1,23 @@
-(** C17 placeholder *)
-From GoSh Require Import Base.Bytes.
+(** C17 — Alias substitution equals textual replacement at command position and terminates. *)
+From GoSh Require Import Base.Bytes Lex.Alias.
+
+(** The stack of aliases being expanded always holds pairwise distinct names that are aliases. *)
+Theorem C17_stack_names_distinct :
+  forall (t : table) (st : list bytes), reachable t st -> good t st.
+Proof. exact stack_names_distinct. Qed.
+Print Assumptions C17_stack_names_distinct.
+
+(** Hence its depth is bounded by the size of the table: every table terminates. *)
+Theorem C17_alias_depth_bounded :
+  forall (t : table) (st : list bytes), reachable t st -> (length st <= length t)%nat.
+Proof. exact alias_depth_bounded. Qed.
+Print Assumptions C17_alias_depth_bounded.
+
+(** A name is never expanded again inside its own expansion. *)
+Theorem C17_no_self_expansion :
+  forall (t : table) (st : list bytes) (name : bytes), on_stack name st = true -> subst t st name = None.
+Proof. exact no_self_expansion. Qed.
+Print Assumptions C17_no_self_expansion.
+
+(** Not proved: equality with textual replacement (decided on every run against the reference
+    replacement on folded / unfolded renderings of generated command structures). *)
